@@ -36,7 +36,7 @@ static std::string gen_spec(Rng &r, int maxlen, int maxsize, bool allow_corpus, 
   int c = (int)r.below(10);
   if (allow_corpus && c < 3) return strf("corpus:%d", (int)r.below(100000));
   if (allow_float_fixed && c == 3) {
-    static const char *fx[] = {"addw", "subb", "mulll", "addf", "cmpltf", "convfl", "addf", "accl", "copyb", "regpressure", "allregs", "addq"};
+    static const char *fx[] = {"addw", "subb", "mulll", "addf", "cmpltf", "convfl", "acc2", "accl", "copyb", "regpressure", "allregs", "addq"};
     return strf("fixed:%s", fx[r.below(maxsize >= 8 ? 12 : 11)]);
   }
   int len = 1 + (int)r.below(maxlen);
@@ -154,6 +154,9 @@ static std::vector<std::string> hist_gen(const GenArgs &ga) {
     if (cycles > 1) nops = std::min(nops, 80);
     maxlen = sw.chance(1, 2) ? 40 : 15;
     rawalloc = sw.chance(2, 3);
+    // a tenth of the histories keep the backing files (ORC_CODE=debug): frees are then documented no-ops, so
+    // a few large blocks are enough to spread live functions over several regions
+    if (sw.chance(1, 10)) orc_code = "debug";
     poison = false;
     mix = {{"new", 16}, {"compile", 26}, {"take", 9}, {"run", 8}, {"runc", 6}, {"freep", 10}, {"freec", 9},
            {"reset", 3}, {"rawalloc", rawalloc ? 12 : 0}, {"freeall", 1}, {"policy", faults ? 2 : 0}, {"debug", 2}, {"append", 3}};
@@ -288,6 +291,7 @@ static std::vector<std::string> hist_gen(const GenArgs &ga) {
       }
       // rewrite the configuration lines for this mode: no faults, one cycle, everything ok
       for (auto &l : pl) {
+        if (starts(l, "env ")) l = "env ORC_CODE=- ORC_DEBUG=- ORC_BACKEND=-";
         if (starts(l, "dirs ")) l = "dirs xdg=unset home=unset tmpdir=unset tmp=ok execmem=1";
         if (starts(l, "cfg ")) l = "cfg poison=0 sink=0 cycles=1 oracles=layout,bytes,reuse,growth,enum refchild=0";
         if (starts(l, "init")) l = "init";
@@ -349,10 +353,11 @@ static std::vector<std::string> hist_gen(const GenArgs &ga) {
       else if (!strcmp(dd, "execmem")) l += strf(" dir=execmem to=%d", (int)fr.below(2));
       else l += strf(" dir=%s to=%s", dd, dir_policy(fr, 60).c_str());
     } else if (op == "rawalloc") {
-      static const int sz[] = {1, 15, 16, 17, 100, 1000, 4096, 5000, 16384, 20000, 32768, 40000, 65520, 65535, 65536};
+      static const int sz[] = {1, 15, 16, 17, 100, 1000, 4096, 5000, 16384, 20000, 32768, 40000, 65520, 65535, 65536,
+                               65537, 70000, 200000};   // the last three: more than a region can hold (must be refused)
       // C16: large blocks, so that a few live objects span several regions in every cycle
       bool big = P == "C16" || (P == "C17" && faults);
-      l += strf(" size=%d fill=%llu", big ? sz[8 + pr.below(7)] : sz[pr.below(15)], (unsigned long long)(dr.next() >> 40));
+      l += strf(" size=%d fill=%llu", big ? sz[8 + pr.below(7)] : sz[pr.below(P == "C09" ? 18 : 15)], (unsigned long long)(dr.next() >> 40));
     } else if (op == "subject") {
       int s = subj_seen < nsubjects ? subj_seen++ : (int)pr.below(nsubjects ? nsubjects : 1);
       l += strf(" s=%d ds=%llu", s, (unsigned long long)(dr.next() >> 20));
@@ -397,6 +402,8 @@ struct Prog {
   ProgMeta meta;
   int backup_slot = -1;
   bool runnable = false;
+  bool backup_entry = false;  // no code object, but code_exec is the registered backup function (never compiled,
+                              // or the last compile failed fatally)
   Func fn;
   std::string target;
   int id = 0;
@@ -861,6 +868,7 @@ static void hist_run(const std::vector<std::string> &plan, Child &c) {
         if (kvi(w, "backup", 0) && p.id < MAX_BACKUP) {
           p.backup_slot = p.id;
           orc_program_set_backup_function(p.p, backup_fn);
+          p.backup_entry = true;
           orc_program_set_backup_name(p.p, strf("backup_of_%s", name.c_str()).c_str());
         }
         c.event("  built %s insns=%d ops=[%s]", name.c_str(), p.meta.n_insns, p.meta.opnames.c_str());
@@ -900,6 +908,7 @@ static void hist_run(const std::vector<std::string> &plan, Child &c) {
         } else {
           p.target = tname;
           p.runnable = !fatal;
+          p.backup_entry = fatal;
           p.fn = Func();
           if (p.pending_twin) { p.twin = p.pending_twin; p.pending_twin.reset(); p.meta.spec = p.pending_spec; p.pending_spec.clear(); }
           if (st.O("class")) {
@@ -1018,6 +1027,7 @@ static void hist_run(const std::vector<std::string> &plan, Child &c) {
         Prog &p = st.progs[kvi(w, "p") % st.progs.size()];
         orc_program_reset(p.p);
         p.runnable = false;
+        p.backup_entry = false;   // (code_exec is left pointing at what was just freed)
         p.fn = Func();
         c.count("op.reset");
       } else if (op == "freep") {
@@ -1039,8 +1049,15 @@ static void hist_run(const std::vector<std::string> &plan, Child &c) {
       } else if (op == "run") {
         if (st.progs.empty()) { c.event("  skip"); continue; }
         Prog &p = st.progs[kvi(w, "p") % st.progs.size()];
-        if (!p.runnable) { c.event("  skip not-runnable"); continue; }
-        do_run(st, &p, nullptr, kv(w, "mode", "exec"), (int)kvi(w, "n"), kvu(w, "ds"));
+        std::string mode = kv(w, "mode", "exec");
+        if (!p.runnable) {
+          // never compiled, or the compile failed fatally: there is no code object, but a program with a
+          // registered backup function is still callable through the executor API (that is what generated
+          // wrappers do without looking at the compile result) -- the backup function must be what runs
+          if (p.backup_slot < 0 || !p.backup_entry || (mode != "exec" && mode != "backup")) { c.event("  skip not-runnable"); continue; }
+          c.count("probe.run_without_code_object_backup_registered");
+        }
+        do_run(st, &p, nullptr, mode, (int)kvi(w, "n"), kvu(w, "ds"));
       } else if (op == "runc") {
         if (st.codes.empty()) { c.event("  skip"); continue; }
         CodeObj &co = st.codes[kvi(w, "c") % st.codes.size()];
@@ -1077,6 +1094,13 @@ static void hist_run(const std::vector<std::string> &plan, Child &c) {
           c.event("  rawalloc %d failed", size);
           orc_code_free(co.c);
         } else {
+          {
+            // the range handed out must lie inside a region before anything is written to it
+            Layout pre; walk_codemem(pre);
+            int r0, off0;
+            if (pre.locate(co.c->code, r0, off0) && off0 + size > pre.regions[r0].size)
+              c.violation("layout", "function-outside-region", strf("a request for %d bytes was given [%d,%d) of region %d, which has %d bytes", size, off0, off0 + size, r0, pre.regions[r0].size));
+          }
           // what a compile does next: copy the emitted bytes into the chunk
           Rng fr2(kvu(w, "fill", 1));
           for (int k = 0; k < size; k++) co.c->code[k] = (uint8_t)fr2.next();
